@@ -219,7 +219,8 @@ func classes(tier string) []class {
 			dets = both[:1]
 		}
 		for n := 1; n <= 2; n++ {
-			cs = append(cs, class{mode, n, 0, true, dets, -1})
+			// one-block histories: one restart anywhere, also between the first sync and the reorg
+			cs = append(cs, class{mode, n, 2 - n, true, dets, -1})
 		}
 	}
 	return cs
